@@ -41,7 +41,7 @@ fn tagged_shape(t: i32, call: usize, r: &mut Rng) -> Shape {
     let input: Vec<(i32, Vec<[u64; 4]>)> = (0..nparts)
         .map(|p| {
             let n = if gen::is_point(t) { 1 } else { 2 + (call + p) % 3 };
-            let pts = (0..n).map(|k| [f(if p == 0 && k == 0 { call as f64 } else { 1000.0 + r.below(1000) as f64 }), f(r.below(50) as f64), f(k as f64), f(1.0 + k as f64)]).collect();
+            let pts = (0..n).map(|k| [f(if p == 0 && k == 0 { call as f64 } else { 1_000_000.0 + r.below(1000) as f64 }), f(r.below(50) as f64), f(k as f64), f(1.0 + k as f64)]).collect();
             (if t == 31 { 0 } else { 0 }, pts)
         })
         .collect();
@@ -51,7 +51,7 @@ fn tagged_shape(t: i32, call: usize, r: &mut Rng) -> Shape {
 }
 
 fn shape_tag(d: &D) -> Option<usize> {
-    d.parts.iter().flatten().map(|v| f64::from_bits(v[0])).filter(|x| *x < 1000.0).map(|x| x as usize).next()
+    d.parts.iter().flatten().map(|v| f64::from_bits(v[0])).filter(|x| *x < 1_000_000.0).map(|x| x as usize).next()
 }
 
 fn good_row(call: usize) -> Record {
@@ -290,6 +290,10 @@ pub fn run(ctx: &Ctx) -> Report {
         for n in [8usize, 12, 20, 40] {
             words.push(vec![OK; n]);
         }
+        // numbers of pairs straddling powers of two (caps and buffer sizes change behaviour there)
+        for n in gen::threshold_sizes(false).into_iter().filter(|n| ctx.thorough || n % 2 == 1) {
+            words.push(vec![OK; n]);
+        }
         let mut r = Rng::derive(ctx.seed, &[tag("c08-long")]);
         for _ in 0..ctx.pick(40, 400) {
             let n = r.usize_in(8, 24);
@@ -317,7 +321,10 @@ pub fn run(ctx: &Ctx) -> Report {
                 rep.class(if word.iter().all(|l| *l == OK) { "all-success history" } else if word.iter().any(|l| *l >= MISSING_FIELD) { "history with a rejected row" } else { "history with a rejected shape only" });
                 run_cursor(t, other, word, ctx.seed, &case, rep);
             }
-            if !cfg!(miri) && wi % ctx.pick(13, 5) == 1 {
+            if word.len() > 1000 && !matches!(t, 1 | 23) {
+                continue; // the large histories run for two types
+            }
+            if !cfg!(miri) && (wi % ctx.pick(13, 5) == 1 || word.len() > 1000) {
                 let case = format!("c08:t{}:w{}:path", t, wi);
                 if ctx.want(&case) {
                     rep.eval();
